@@ -430,3 +430,7 @@ func verifCollect[K comparable, V any](m *Map[K, V]) []Tuple[K, V] {
 //@   trusted
 //@   assigns reach(dst)
 //@   note ASSUMED: ordered.Unmarshal writes only memory reachable from dst plus new objects (it never writes src, package state or anything else)
+
+//@ func quoteMergeString
+//@   requires n != nil
+//@   assigns n.Tag, n.Style
